@@ -49,8 +49,8 @@ CHECKS = [
          note='hyphen splitting is covered by the oracle only; overlap-filter treatment of pseudo matches is a known finding.',
          technique=T_CORR),
     dict(id='C07',
-         text='Model stream (whole-pipeline model vs Match on planted/edited inputs) and metamorphic oracle Match(X) vs Match(P+X+S); the exact-copy case is covered by the C01 theorems (range bounds independent of A, B). No general shift theorem is claimed: partial.',
-         note='partial: proved for arbitrary X up to the hit bitmap (hash join and bitmap are those of X alone, shifted: V2/Shift.v) and for exact copies up to the proposed range; the stages after the bitmap (density window start, negative-offset clamp, short-target trim) are position dependent at the edges of X by construction: searched (metamorphic oracle, boundary-density inputs) and tied at stage level (getMatchedRanges vs model), not proved.',
+         text='Model stream (whole-pipeline model vs Match on planted/edited inputs) and metamorphic oracle Match(X) vs Match(P+X+S); the exact-copy case is covered by the C01 theorems (range bounds independent of A, B). Stage theorems for arbitrary X: hash join and hit bitmap shift (Shift.v), the density window refines its counting specification and its test is position independent in the interior and at the trailing edge (WindowSpec.v), fusion and the claimed-token cut commute with the shift for non-negative diagonals given that the runs shift (FuseShift.v). No end-to-end shift theorem is claimed: partial.',
+         note='partial: proved for arbitrary X: hash join, hit bitmap, window test at every index from the start of X on, fusion and cut under non-negative diagonals and shifted runs; proved for exact copies up to the proposed range. Position dependent by construction and therefore searched (metamorphic oracle, boundary-density and threshold-window inputs) and tied at stage level (getMatchedRanges vs model), not proved: the leading window edge (a run may start up to L-1 tokens early, witness in WindowSpec.v), the negative-offset clamp (witness in FuseShift.v), the short-target trim and the overlap resolution of match.',
          technique=T_CORR),
     dict(id='C10',
          text='Coq theorems: match_tokens never reaches an out-of-range site for any threshold/corpus/input given a valid diff oracle (MatchWF.v + ScoringProof.v offsets), searchset ranges in bounds, read loop total on every byte string (ReaderProof.v), all recursion structural or on fuel proved sufficient. Oracle: hostile bytes x corpora x thresholds with recover and time budget.',
@@ -66,7 +66,7 @@ CHECKS = [
          technique=T_CORR),
     dict(id='C17',
          text='Models of v1 Tokenize and of the candidate-range pipeline (sort order given, untangle, split, merge, coalesce, TargetRange) tied to the code on license snippets, Unicode/invalid UTF-8 strings and highly repetitive low-vocabulary pairs; theorems (Tok1Proof.v, when listed in the evidence) on offsets reproducing token text and on ranges staying in bounds; direct oracles on Tokenize and FindPotentialMatches output.',
-         note='targetMatchedRanges (hash join with aliasing slices) is an oracle: the model starts from the sorted list it produces; unicode classes from the running code.',
+         note='which equal-checksum window pairs targetMatchedRanges keeps (bookkeeping with pointers into a slice compacted in place) is not modelled; the theorems need only that every range pairs a hashed source window with a target node of equal checksum and that the list is sorted (Join1Proof.v), and both are evaluated on the code output of every case together with the window lists themselves (v1-join-hypotheses stream); unicode classes from the running code.',
          technique=T_CORR),
     dict(id='C13',
          text='Model of the exact-occurrence branch (token scan, TargetRange, slice bounds) with the theorem that a token-aligned occurrence is reported with exactly its Offset/Extent and that reported spans lie inside the text (Matcher1Proof.v when listed); the original scan is refuted by computation. Oracle in child processes (worker-goroutine panics kill the process): planted verbatim values, NearestMatch of known values, confidence and span bounds, AddValue on arbitrary strings.',
